@@ -38,7 +38,9 @@ Fixpoint name_ltb (a b : name) : bool :=
   | x :: a', y :: b' => if Z.ltb x y then true else if Z.ltb y x then false else name_ltb a' b'
   end.
 
-Inductive exc := FileNotFound | IsADirectory | NotADirectory | FileExists | MemoryErr | AssertionErr | KeyErr.
+Inductive exc := FileNotFound | IsADirectory | NotADirectory | FileExists | MemoryErr | AssertionErr | KeyErr
+                 | IOErr        (* an injected read fault (OSError) *)
+                 | DataErr.     (* contents that cannot be processed (unpickling error) *)
 
 Section Cache.
   Variable C : Type.
@@ -286,6 +288,22 @@ Section Cache.
           end
     end.
 
+  (* get_file whose load fails with exception e (a read fault injected into _load_file's open/read/process_contents):
+     the worker raises before update_file_futures_and_memory, so the entry registered by get_file stays, holding the
+     failed future; nothing else changes.  A cached entry needs no load: the fault is not hit. *)
+  Definition get_file_fault (s : cache) (n : name) (t : Z) (ch : list name) (e : exc) : cache * (C + exc) :=
+    match lookup (c_disk s) n with
+    | None => (s, inr FileNotFound)
+    | Some nd =>
+        let claim := match nd with File c => clen c | Dir => dirsize end in
+        if claim >? c_max s then (s, inr MemoryErr)
+        else
+          match assoc (c_entries s) n with
+          | None => (resolve (set_entry s n (mkE false claim FPending)) (FErr e), inr e)
+          | Some _ => get_file s n t ch
+          end
+    end.
+
   (* update_file; the bool is write_applied *)
   Definition update_file (s : cache) (n : name) (c : C) (t : Z) (ch : list name) : cache * (bool + exc) :=
     let claim := clen c in
@@ -311,7 +329,8 @@ Section Cache.
   | OSet (n : name) (c : C) (t : Z) (ch : list name)
   | OGet (n : name) (t : Z) (ch : list name)
   | OUnload (n : name)
-  | OReopen (mx : Z).
+  | OReopen (mx : Z)
+  | OGetFault (n : name) (t : Z) (ch : list name) (e : exc).   (* a get whose load hits a read fault *)
 
   Inductive res := RSet | RVal (c : C) | RUndef | RErr (e : exc) | RNone.
 
@@ -331,6 +350,12 @@ Section Cache.
         end
     | OUnload n => (unload_file s n, RNone)
     | OReopen mx => (reopen s mx, RNone)
+    | OGetFault n t ch e =>
+        match get_file_fault s n t ch e with
+        | (s1, inl c) => (s1, RVal c)
+        | (s1, inr FileNotFound) => (s1, if catches then RUndef else RErr FileNotFound)
+        | (s1, inr x) => (s1, RErr x)
+        end
     end.
 
   Fixpoint kvs_run (catches : bool) (s : cache) (ops : list op) : cache * list res :=
@@ -358,6 +383,7 @@ Section Cache.
         end
     | OUnload _ => (s, RNone)
     | OReopen mx => (mkS (s_map s) (if Z.eqb mx 0 then default_max else mx), RNone)
+    | OGetFault _ _ _ e => (s, RErr e)          (* outside the dictionary: a fault answers with its error *)
     end.
 
   Fixpoint spec_run (s : sstate) (ops : list op) : sstate * list res :=
@@ -370,7 +396,7 @@ Section Cache.
     end.
 
   Definition op_name (o : op) : option name :=
-    match o with OSet n _ _ _ | OGet n _ _ | OUnload n => Some n | OReopen _ => None end.
+    match o with OSet n _ _ _ | OGet n _ _ | OUnload n | OGetFault n _ _ _ => Some n | OReopen _ => None end.
 End Cache.
 
 Arguments File {C}.
@@ -382,6 +408,7 @@ Arguments OSet {C}.
 Arguments OGet {C}.
 Arguments OUnload {C}.
 Arguments OReopen {C}.
+Arguments OGetFault {C}.
 Arguments RSet {C}.
 Arguments RVal {C}.
 Arguments RUndef {C}.
